@@ -14,6 +14,7 @@
 import Dirk.Lemmas.Run
 import Dirk.Lemmas.Scatter
 import Dirk.Lemmas.Exact
+import Dirk.Props.KernelsEq
 
 set_option linter.unusedSimpArgs false
 
@@ -161,5 +162,13 @@ theorem C09_live_prop (cfg : Config) (ops : List Op) (hc : ∀ op ∈ ops, op.cl
 /-- non-vacuity -/
 example : extents 10 3 = [(0, 4), (4, 4), (8, 2)] := by decide
 example : seqVerdicts [] [([7], ⟨domAttester, 1, 2⟩), ([8], ⟨domAttester, 3, 3⟩)] = [.approved, .denied] := by decide
+
+/-- **tie by translation.** The extent size the partition theorems are about is, for every batch size that fits an
+    int64 and every positive processor count, what the function translated on every run from the Go source of
+    `calculateExtentSize` (util/scatter.go; Go `int` arithmetic with truncating division and wrap-around) returns —
+    and that Go code neither divides by zero nor overflows there. -/
+theorem C09_kernel_is_source (n p : Nat) (hp : 0 < p) (hn : n ≤ maxI64) :
+    Gen.extentSizeGen n p = some (extentSize n p : Int) :=
+  extentSize_eq_gen n p hp hn
 
 end Dirk
